@@ -828,7 +828,7 @@ Lemma apply_remove_eq : forall fo t o, p_op o = ORemove ->
   apply_op fo t o = if is_root (p_path o) then (RcOk, zero_node)
                     else match m_detach t (p_path o) with None => (RcNotFound, t) | Some (t', _) => (RcOk, t') end.
 Proof.
-  intros fo t o H. unfold apply_op. rewrite H.
+  intros fo t o H. unfold apply_op, apply_op_v. rewrite H. cbn [negb].
   change (op_eqb ORemove OSwap) with false. change (op_eqb ORemove OTest) with false. change (op_eqb ORemove ORemove) with true.
   cbn [andb orb]. destruct (is_root (p_path o)); [reflexivity|].
   destruct (m_detach t (p_path o)) as [[t' d]|]; reflexivity.
@@ -850,10 +850,10 @@ Proof.
 Qed.
 
 Lemma apply_add_eq : forall fo t o, p_op o = OAdd ->
-  apply_op fo t o = if is_root (p_path o) then match p_val o with None => (RcNoValue, t) | Some v => (RcOk, v) end
+  apply_op fo t o = if is_root (p_path o) then match p_val o with None => (RcNoValue, t) | Some v => (RcOk, copy_data t v) end
                     else match p_val o with None => (RcNoValue, t) | Some v => put_or_create fo OAdd t (p_path o) v end.
 Proof.
-  intros fo t o H. unfold apply_op. rewrite H.
+  intros fo t o H. unfold apply_op, apply_op_v. rewrite H. cbn [negb].
   change (op_eqb OAdd OSwap) with false. change (op_eqb OAdd OTest) with false. change (op_eqb OAdd ORemove) with false.
   change (op_eqb OAdd OReplace) with false. change (op_eqb OAdd OAdd) with true. change (op_eqb OAdd OMove) with false.
   change (op_eqb OAdd OCopy) with false.
@@ -867,7 +867,8 @@ Proof.
   unfold op_good in G. destruct (p_val o) as [v|]; cbn [option_map].
   2:{ destruct (is_root (p_path o)); cbn [fst snd]; split; try discriminate; auto. }
   specialize (G v eq_refl). destruct (is_root (p_path o)) eqn:R.
-  - cbn [fst snd]. destruct G as [G1 G2]. repeat split; auto. apply doc_val_good. exact G2.
+  - cbn [fst snd]. pose proof (good_copy_data t v G) as [G1 G2]. repeat split; auto.
+    rewrite (doc_val_good _ G2), val_copy_data. reflexivity.
   - destruct (ty_none_dec t) as [T|T].
     + rewrite (doc_val_none t T). apply poc_none; auto.
     + rewrite (doc_val_good t T).
@@ -877,13 +878,13 @@ Qed.
 
 Lemma apply_replace_eq : forall fo t o, p_op o = OReplace ->
   apply_op fo t o =
-  if is_root (p_path o) then match p_val o with None => (RcNoValue, t) | Some v => (RcOk, v) end
+  if is_root (p_path o) then match p_val o with None => (RcNoValue, t) | Some v => (RcOk, copy_data t v) end
   else match m_detach t (p_path o) with
        | None => (RcNotFound, t)
        | Some (t1, _) => match p_val o with None => (RcNoValue, t1) | Some v => put_or_create fo OReplace t1 (p_path o) v end
        end.
 Proof.
-  intros fo t o H. unfold apply_op. rewrite H.
+  intros fo t o H. unfold apply_op, apply_op_v. rewrite H. cbn [negb].
   change (op_eqb OReplace OSwap) with false. change (op_eqb OReplace OTest) with false. change (op_eqb OReplace ORemove) with false.
   change (op_eqb OReplace OReplace) with true. change (op_eqb OReplace OAdd) with false. change (op_eqb OReplace OMove) with false.
   change (op_eqb OReplace OCopy) with false.
@@ -901,7 +902,8 @@ Proof.
       destruct (m_detach t (p_path o)) as [[t' d]|]; cbn [fst snd]; (split; [discriminate|]); auto.
       destruct D as [_ [D2 _]]. exact D2. }
   specialize (G v eq_refl). destruct (is_root (p_path o)) eqn:R.
-  - cbn [fst snd]. destruct G as [G1 G2]. repeat split; auto. apply doc_val_good. exact G2.
+  - cbn [fst snd]. pose proof (good_copy_data t v G) as [G1 G2]. repeat split; auto.
+    rewrite (doc_val_good _ G2), val_copy_data. reflexivity.
   - destruct (ty_none_dec t) as [T|T].
     + rewrite (doc_val_none t T), (none_detach t _ T). cbn [fst snd]. split; [discriminate | auto].
     + rewrite (doc_val_good t T). pose proof (detach_spec (p_path o) t H) as D.
@@ -913,9 +915,40 @@ Proof.
       * rewrite D. cbn [fst snd]. split; [discriminate | auto].
 Qed.
 
+(* move / copy with the whole document as `path` (22df63c): the value at `from` becomes the document *)
+Definition root_from (t : node) (from : option (list seg)) : rc * node :=
+  match from with
+  | None => (RcPatchInvalid, t)
+  | Some [] => (RcOk, t)
+  | Some f => match m_find t f with None => (RcNotFound, t) | Some v => (RcOk, copy_data t v) end
+  end.
+
+Lemma root_from_spec : forall t from, inv t ->
+  match (match from, doc_val t with
+         | Some f, Some dv => match jget lenient dv f with Some x => Some (Some x) | None => None end
+         | _, _ => match from with Some [] => Some (doc_val t) | _ => None end
+         end) with
+  | Some d' => fst (root_from t from) = RcOk /\ doc_val (snd (root_from t from)) = d' /\ inv (snd (root_from t from))
+  | None => fst (root_from t from) <> RcOk /\ inv (snd (root_from t from))
+  end.
+Proof.
+  intros t [[|s r]|] H; cbn [root_from].
+  - destruct (doc_val t) as [dv|] eqn:D; cbn [jget fst snd]; repeat split; auto.
+  - destruct (ty_none_dec t) as [T|T].
+    + rewrite (doc_val_none t T). rewrite (none_find t (s :: r) T) by discriminate. cbn [fst snd]. split; [discriminate | exact H].
+    + rewrite (doc_val_good t T). pose proof (find_spec (s :: r) t H) as F.
+      destruct (m_find t (s :: r)) as [v|].
+      * destruct F as [F1 [F2 F3]]. rewrite F1. cbn [fst snd].
+        assert (G : good v) by (split; [exact F2 | apply F3; discriminate]).
+        pose proof (good_copy_data t v G) as [G1 G2]. repeat split; auto.
+        rewrite (doc_val_good _ G2), val_copy_data. reflexivity.
+      * rewrite F. cbn [fst snd]. split; [discriminate | exact H].
+  - destruct (doc_val t); cbn [fst snd]; split; try discriminate; exact H.
+Qed.
+
 Lemma apply_move_eq : forall fo t o, p_op o = OMove ->
   apply_op fo t o =
-  if is_root (p_path o) then (RcOk, t)
+  if is_root (p_path o) then root_from t (p_from o)
   else match p_from o with
        | None => (RcPatchInvalid, t)
        | Some f => match m_detach t f with
@@ -924,7 +957,7 @@ Lemma apply_move_eq : forall fo t o, p_op o = OMove ->
                    end
        end.
 Proof.
-  intros fo t o H. unfold apply_op. rewrite H.
+  intros fo t o H. unfold apply_op, apply_op_v. rewrite H. cbn [negb].
   change (op_eqb OMove OSwap) with false. change (op_eqb OMove OTest) with false. change (op_eqb OMove ORemove) with false.
   change (op_eqb OMove OReplace) with false. change (op_eqb OMove OAdd) with false. change (op_eqb OMove OMove) with true.
   change (op_eqb OMove OCopy) with false. change (op_eqb OMove OAddCreate) with false.
@@ -938,7 +971,7 @@ Proof.
   unfold rfc_op, sop_of. cbn [s_op s_path s_val s_from]. rewrite K. cbn [sopk_of]. rewrite <- is_root_spec.
   cbn [c_lenient lenient negb andb].
   destruct (is_root (p_path o)) eqn:R.
-  - cbn [fst snd andb]. destruct (p_from o); destruct (doc_val t); repeat split; auto.
+  - cbn [andb]. exact (root_from_spec t (p_from o) H).
   - cbn [andb]. destruct (p_from o) as [f|]; [|cbn [fst snd]; split; [discriminate | auto]].
     destruct (ty_none_dec t) as [T|T].
     + rewrite (doc_val_none t T), (none_detach t _ T). cbn [fst snd]. split; [discriminate | auto].
@@ -953,7 +986,7 @@ Qed.
 
 Lemma apply_copy_eq : forall fo t o, p_op o = OCopy ->
   apply_op fo t o =
-  if is_root (p_path o) then (RcOk, t)
+  if is_root (p_path o) then root_from t (p_from o)
   else match p_from o with
        | None => (RcPatchInvalid, t)
        | Some f => match m_find t f with
@@ -962,7 +995,7 @@ Lemma apply_copy_eq : forall fo t o, p_op o = OCopy ->
                    end
        end.
 Proof.
-  intros fo t o H. unfold apply_op. rewrite H.
+  intros fo t o H. unfold apply_op, apply_op_v. rewrite H. cbn [negb].
   change (op_eqb OCopy OSwap) with false. change (op_eqb OCopy OTest) with false. change (op_eqb OCopy ORemove) with false.
   change (op_eqb OCopy OReplace) with false. change (op_eqb OCopy OAdd) with false. change (op_eqb OCopy OMove) with false.
   change (op_eqb OCopy OCopy) with true. change (op_eqb OCopy OAddCreate) with false.
@@ -976,7 +1009,7 @@ Proof.
   unfold rfc_op, sop_of. cbn [s_op s_path s_val s_from]. rewrite K. cbn [sopk_of]. rewrite <- is_root_spec.
   cbn [c_lenient lenient].
   destruct (is_root (p_path o)) eqn:R.
-  - cbn [fst snd andb]. destruct (p_from o); destruct (doc_val t); repeat split; auto.
+  - cbn [andb]. exact (root_from_spec t (p_from o) H).
   - cbn [andb]. destruct (p_from o) as [f|]; [|cbn [fst snd]; split; [discriminate | auto]].
     destruct (ty_none_dec t) as [T|T].
     + rewrite (doc_val_none t T). destruct f as [|s r].
@@ -1005,7 +1038,7 @@ Lemma apply_test_eq : forall fo t o, p_op o = OTest ->
               | None => (RcTestFailed, t)
               end
   end.
-Proof. intros fo t o H. unfold apply_op. rewrite H. reflexivity. Qed.
+Proof. intros fo t o H. unfold apply_op, apply_op_v. rewrite H. cbn [negb]. reflexivity. Qed.
 
 Lemma op_test : forall fo t o, p_op o = OTest -> inv t -> op_good o -> op_post fo t o.
 Proof.
@@ -1157,10 +1190,9 @@ Proof. intros v p v' H. unfold s_remove in *. eapply jmod_mono; [|exact H]. appl
 Lemma s_add_mono : forall v p x v', s_add strict v p x = Some v' -> s_add lenient v p x = Some v'.
 Proof. intros v p x v' H. unfold s_add in *. eapply jmod_mono; [|exact H]. apply add_here_mono. Qed.
 
-(* the two places where the library's reading is NOT an extension of the RFC: "/" (one empty segment) is the
-   library's root, and move/copy onto the root are ignored *)
-Definition no_root_alias (o : sop) : Prop :=
-  s_path o <> [[]] /\ ((s_op o = SMove \/ s_op o = SCopy) -> s_path o <> []).
+(* the one place where the library's reading is NOT an extension of the RFC: "/" (one empty segment) is the
+   library's root.  (Until 22df63c move / copy onto the root were ignored as well: apply_op_v true.) *)
+Definition no_root_alias (o : sop) : Prop := s_path o <> [[]].
 
 Lemma strict_root : forall p, p <> [[]] -> s_is_root lenient p = s_is_root strict p.
 Proof. intros [|[|x s] [|y r]] H; try reflexivity. contradiction. Qed.
@@ -1168,7 +1200,7 @@ Proof. intros [|[|x s] [|y r]] H; try reflexivity. contradiction. Qed.
 Theorem rfc_op_strict_lenient : forall feq d o d', no_root_alias o ->
   rfc_op strict feq d o = Some d' -> rfc_op lenient feq d o = Some d'.
 Proof.
-  intros feq d o d' [NA NR] H. unfold rfc_op in *. rewrite (strict_root _ NA).
+  intros feq d o d' NA H. unfold no_root_alias in NA. unfold rfc_op in *. rewrite (strict_root _ NA).
   destruct (s_op o) eqn:K; try discriminate.
   - (* add *)
     destruct (s_val o) as [v|]; [|discriminate]. destruct (s_is_root strict (s_path o)); auto.
@@ -1183,17 +1215,17 @@ Proof.
     destruct (s_remove strict dv (s_path o)) as [d1|] eqn:A; [|discriminate]. rewrite (s_remove_mono _ _ _ A).
     destruct (s_add strict d1 (s_path o) v) as [r|] eqn:B; [|discriminate]. rewrite (s_add_mono _ _ _ _ B). exact H.
   - (* copy *)
-    assert (NR' : s_path o <> []) by (apply NR; auto).
-    assert (R : s_is_root strict (s_path o) = false).
-    { destruct (s_path o) as [|[|? ?] [|? ?]]; try reflexivity. exfalso. apply NR'. reflexivity. }
-    rewrite R in *. destruct (s_from o) as [f|]; [|discriminate]. destruct d as [dv|]; [|discriminate].
+    destruct (s_from o) as [f|]; [|destruct d; destruct (s_is_root strict (s_path o)); discriminate].
+    destruct d as [dv|]; [|destruct (s_is_root strict (s_path o)); discriminate].
+    destruct (s_is_root strict (s_path o)).
+    { destruct (jget strict dv f) as [x|] eqn:G; [|discriminate]. rewrite (jget_mono _ _ _ G). exact H. }
     destruct (jget strict dv f) as [x|] eqn:G; [|discriminate]. rewrite (jget_mono _ _ _ G).
     destruct (s_add strict dv (s_path o) x) as [r|] eqn:B; [|discriminate]. rewrite (s_add_mono _ _ _ _ B). exact H.
   - (* move *)
-    assert (NR' : s_path o <> []) by (apply NR; auto).
-    assert (R : s_is_root strict (s_path o) = false).
-    { destruct (s_path o) as [|[|? ?] [|? ?]]; try reflexivity. exfalso. apply NR'. reflexivity. }
-    rewrite R in *. destruct (s_from o) as [f|]; [|discriminate]. destruct d as [dv|]; [|discriminate].
+    destruct (s_from o) as [f|]; [|destruct d; destruct (s_is_root strict (s_path o)); discriminate].
+    destruct d as [dv|]; [|destruct (s_is_root strict (s_path o)); discriminate].
+    destruct (s_is_root strict (s_path o)).
+    { destruct (jget strict dv f) as [x|] eqn:G; [|discriminate]. rewrite (jget_mono _ _ _ G). exact H. }
     cbn [c_lenient strict lenient negb andb] in *.
     destruct (proper_prefix f (s_path o)); [discriminate|].
     destruct (jget strict dv f) as [x|] eqn:G; [|discriminate]. rewrite (jget_mono _ _ _ G).
@@ -1460,7 +1492,7 @@ Lemma test_outcome : forall fo t o v, p_op o = OTest -> p_val o = Some v ->
    | None => RcTestFailed
    end, t).
 Proof.
-  intros fo t o v Ho Hv. unfold apply_op. rewrite Ho, Hv.
+  intros fo t o v Ho Hv. unfold apply_op, apply_op_v. rewrite Ho, Hv.
   replace (op_eqb OTest OSwap) with false by reflexivity. replace (op_eqb OTest OTest) with true by reflexivity.
   cbn [andb]. destruct (if is_root (p_path o) then Some t else m_find t (p_path o)) as [x|]; [|reflexivity].
   destruct (nodes_eq fo x v); reflexivity.
@@ -1612,8 +1644,10 @@ Proof.
   destruct (patch_single_op_rfc fo t o d' K It Go NR HR) as [R1 [R2 R3]].
   split; [exact R1 | split; [exact R3|]]. rewrite R2.
   unfold rfc_op, sop_of in HR. cbn [s_op s_path s_from s_val] in HR. rewrite Ho, Hf, Hd in HR. cbn [sopk_of] in HR.
-  destruct NR as [_ NR2]. assert (NE : p_path o <> []) by (apply NR2; right; unfold sop_of; cbn [s_op]; rewrite Ho; reflexivity).
-  assert (SR : s_is_root strict (p_path o) = false) by (destruct (p_path o) as [|[|c a] [|b2 b]]; [contradiction | reflexivity ..]).
-  rewrite SR, Hx in HR. destruct (s_add strict dv (p_path o) x) as [v'|] eqn:A; [|discriminate].
+  destruct (s_is_root strict (p_path o)) eqn:SR.
+  { (* onto the root: the copied value is the document *)
+    assert (PE : p_path o = []) by (destruct (p_path o) as [|[|c a] [|b2 b]]; [reflexivity | discriminate ..]).
+    rewrite Hx in HR. injection HR as <-. exists x. rewrite PE. split; reflexivity. }
+  rewrite Hx in HR. destruct (s_add strict dv (p_path o) x) as [v'|] eqn:A; [|discriminate].
   injection HR as <-. exists v'. split; [reflexivity | exact (jget_after_add x (p_path o) dv v' A D)].
 Qed.
